@@ -240,7 +240,10 @@ func c47WriteObj(g *fw.Git, typ string, body []byte, wantID string) {
 	}
 }
 
-type c47Base struct{ text, label, class string }
+type c47Base struct {
+	text, label, class string
+	hintDependent      bool
+}
 
 type c47Fail struct {
 	key, what string
@@ -725,50 +728,50 @@ func c47SpaceN(c *fw.Ctx, coll *c47Collector, sufLen int) {
 	}
 
 	bases := []c47Base{
-		{"HEAD", "HEAD", ""},
-		{"@", "@", ""},
-		{"main", "branch", ""},
-		{"x", "branch+tag same name", ""},
-		{"heads/x", "heads/<name>", ""},
-		{"tags/x", "tags/<name>", ""},
-		{"refs/heads/x", "full refname", ""},
-		{"refs/tags/x", "full refname", ""},
-		{"t", "annotated tag", ""},
-		{"refs/tags/t", "full refname of annotated tag", ""},
-		{"origin", "remote (origin/HEAD)", ""},
-		{"origin/x", "remote branch", ""},
-		{"origin/HEAD", "remote HEAD", ""},
-		{"remotes/origin/x", "remotes/<r>/<b>", ""},
-		{"k", "branch", ""},
-		{"nosuch", "absent name", ""},
-		{"refs/heads/nosuch", "absent full refname", ""},
-		{none, "hex word matching no object", ""},
-		{hexNames[0], "1-digit hex prefix of a commit id", "hex string shorter than 4 digits"},
-		{hexNames[1], "2-digit hex prefix of a commit id", "hex string shorter than 4 digits"},
-		{hexNames[2], "3-digit hex prefix of a commit id", "hex string shorter than 4 digits"},
-		{hexNames[3], "4-digit unique prefix of a commit id", "unique 4..39-digit prefix of a commit id"},
-		{c4[:5], "5-digit unique prefix", ""},
-		{c4[:6], "6-digit unique prefix", ""},
-		{hexNames[4], "7-digit unique prefix of a commit id", "unique 4..39-digit prefix of a commit id"},
-		{c4, "full commit id", ""},
-		{strings.ToUpper(c4[:4]), "4-digit unique prefix, upper case", ""},
-		{strings.ToUpper(c4[:5]), "5-digit unique prefix, upper case", ""},
-		{strings.ToUpper(c4), "full commit id, upper case", ""},
-		{k1[:4], "4-digit prefix shared by two commits", "4-digit prefix shared by two commits"},
-		{uniq(k1, 5), "shortest unique prefix of commit k1", ""},
-		{uniq(k2, 5), "shortest unique prefix of commit k2", ""},
-		{cs[1][:4], "4-digit prefix shared by a commit and a blob", ""},
-		{uniq(cs[1], 5), "unique prefix of the commit sharing 4 digits with a blob", ""},
-		{uniq(bid, 5), "unique prefix of a blob", ""},
-		{tagObj, "full id of a tag object", ""},
-		{uniq(tagObj, 7), "unique prefix of a tag object", ""},
-		{tree, "full id of a tree", ""},
-		{uniq(tree, 7), "unique prefix of a tree", ""},
-		{blobG, "full id of a blob", ""},
-		{cs[6], "full id of the octopus merge", ""},
-		{cs[3], "full id of a merge", ""},
-		{cs[5], "full id of a root", ""},
-		{"0000000000000000000000000000000000000000", "null id", ""},
+		{"HEAD", "HEAD", "", false},
+		{"@", "@", "", false},
+		{"main", "branch", "", false},
+		{"x", "branch+tag same name", "", false},
+		{"heads/x", "heads/<name>", "", false},
+		{"tags/x", "tags/<name>", "", false},
+		{"refs/heads/x", "full refname", "", false},
+		{"refs/tags/x", "full refname", "", false},
+		{"t", "annotated tag", "", false},
+		{"refs/tags/t", "full refname of annotated tag", "", false},
+		{"origin", "remote (origin/HEAD)", "", false},
+		{"origin/x", "remote branch", "", false},
+		{"origin/HEAD", "remote HEAD", "", false},
+		{"remotes/origin/x", "remotes/<r>/<b>", "", false},
+		{"k", "branch", "", false},
+		{"nosuch", "absent name", "", false},
+		{"refs/heads/nosuch", "absent full refname", "", false},
+		{none, "hex word matching no object", "", false},
+		{hexNames[0], "1-digit hex prefix of a commit id", "hex string shorter than 4 digits", false},
+		{hexNames[1], "2-digit hex prefix of a commit id", "hex string shorter than 4 digits", false},
+		{hexNames[2], "3-digit hex prefix of a commit id", "hex string shorter than 4 digits", false},
+		{hexNames[3], "4-digit unique prefix of a commit id", "unique 4..39-digit prefix of a commit id", false},
+		{c4[:5], "5-digit unique prefix", "", false},
+		{c4[:6], "6-digit unique prefix", "", false},
+		{hexNames[4], "7-digit unique prefix of a commit id", "unique 4..39-digit prefix of a commit id", false},
+		{c4, "full commit id", "", false},
+		{strings.ToUpper(c4[:4]), "4-digit unique prefix, upper case", "", false},
+		{strings.ToUpper(c4[:5]), "5-digit unique prefix, upper case", "", false},
+		{strings.ToUpper(c4), "full commit id, upper case", "", false},
+		{k1[:4], "4-digit prefix shared by two commits", "4-digit prefix shared by two commits", false},
+		{uniq(k1, 5), "shortest unique prefix of commit k1", "", false},
+		{uniq(k2, 5), "shortest unique prefix of commit k2", "", false},
+		{cs[1][:4], "4-digit prefix shared by a commit and a blob", "", true},
+		{uniq(cs[1], 5), "unique prefix of the commit sharing 4 digits with a blob", "", false},
+		{uniq(bid, 5), "unique prefix of a blob", "", false},
+		{tagObj, "full id of a tag object", "", false},
+		{uniq(tagObj, 7), "unique prefix of a tag object", "", false},
+		{tree, "full id of a tree", "", false},
+		{uniq(tree, 7), "unique prefix of a tree", "", false},
+		{blobG, "full id of a blob", "", false},
+		{cs[6], "full id of the octopus merge", "", false},
+		{cs[3], "full id of a merge", "", false},
+		{cs[5], "full id of a root", "", false},
+		{"0000000000000000000000000000000000000000", "null id", "", false},
 	}
 	c.Bound("N_bases", len(bases))
 	c.Bound("N_ref_configurations", len(variants))
@@ -841,6 +844,13 @@ func c47SpaceN(c *fw.Ctx, coll *c47Collector, sufLen int) {
 			for si, s := range seqs {
 				e := exprs[bi*len(seqs)+si]
 				ga := ans[bi*len(seqs)+si]
+				if b.hintDependent && len(s) > 0 && c47Suffixes[s[0]] == "^{}" {
+					// <prefix shared by a commit and a blob>^{}: git resolves
+					// such a prefix only through its commit-ish disambiguation
+					// hint, which ^{} does not pass on -- a git heuristic the
+					// property does not pin down
+					continue
+				}
 				c.Eval()
 				hash, _, pan := c47Resolve(repo, e)
 				if pan != "" {
@@ -860,7 +870,12 @@ func c47SpaceN(c *fw.Ctx, coll *c47Collector, sufLen int) {
 					}
 					continue
 				}
-				ms := c47MinSuffix(repo, b.text, s, vd, lookup)
+				ms := c47MinSuffix(repo, b.text, s, vd, func(e string) (string, bool) {
+					if b.hintDependent && strings.HasPrefix(e, b.text+"^{}") {
+						return "", false // not compared (see above): not a valid reduction
+					}
+					return lookup(e)
+				})
 				me := c47Join(b.text, ms)
 				mh, _, _ := c47Resolve(repo, me)
 				mga, _ := lookup(me)
